@@ -533,6 +533,14 @@ func checkFieldGuard(p *Prog, r *Report) {
 					if !ok || ef.Truth {
 						continue
 					}
+					if np, ok := scansBothFieldMaps(hc.Common().StaticCallee()); ok && np < len(hc.Common().Args) {
+						// a membership helper that walks the attribute map and the
+						// relationship map itself
+						if _, fl, ok := fieldLoad(hc.Common().Args[np]); ok && (fl == "Name" || fl == "FromName") {
+							good = true
+						}
+						continue
+					}
 					sum := existsPredicate(hc.Common().StaticCallee())
 					if sum == nil || sum.collField != "call:"+funcName(fields) || sum.elemField != "" || sum.nameParam >= len(hc.Common().Args) {
 						continue
@@ -636,4 +644,91 @@ func firstMatchIndex(h *ssa.Function) (int, bool) {
 		}
 	}
 	return j, n > 0 && j >= 0
+}
+
+// scansBothFieldMaps: h is a boolean helper that returns false only after both
+// a range over a Type's Attrs map (comparing each Name with one parameter) and
+// a range over its Rels map (comparing each FromName with the same parameter)
+// were exhausted, and true only on such a match. It returns the index of the
+// name parameter.
+func scansBothFieldMaps(h *ssa.Function) (int, bool) {
+	if h == nil || h.Blocks == nil || !smallHelper(h) || h.Signature.Results().Len() != 1 {
+		return 0, false
+	}
+	if bt, ok := h.Signature.Results().At(0).Type().Underlying().(*types.Basic); !ok || bt.Kind() != types.Bool {
+		return 0, false
+	}
+	type scan struct {
+		ld   *loopDesc
+		name int
+	}
+	var scans = map[string]*scan{}
+	for _, ld := range findLoops(h) {
+		if ld.kind != "map" || ld.next == nil {
+			continue
+		}
+		_, fl, ok := fieldLoad(ld.src)
+		if !ok || (fl != "Attrs" && fl != "Rels") {
+			continue
+		}
+		want := "Name"
+		if fl == "Rels" {
+			want = "FromName"
+		}
+		np := -1
+		for b := range ld.blocks {
+			for _, ins := range b.Instrs {
+				bo, ok := ins.(*ssa.BinOp)
+				if !ok || bo.Op != token.EQL {
+					continue
+				}
+				for _, pr := range [][2]ssa.Value{{bo.X, bo.Y}, {bo.Y, bo.X}} {
+					prm, isP := pr[1].(*ssa.Parameter)
+					if !isP {
+						continue
+					}
+					if _, f2, ok := fieldLoad(pr[0]); ok && f2 == want {
+						for i, q := range h.Params {
+							if q == prm {
+								np = i
+							}
+						}
+					}
+				}
+			}
+		}
+		if np >= 0 {
+			scans[fl] = &scan{ld, np}
+		}
+	}
+	a, okA := scans["Attrs"]
+	b, okB := scans["Rels"]
+	if !okA || !okB || a.name != b.name {
+		return 0, false
+	}
+	exhausted := func(ld *loopDesc) func(cond ssa.Value, truth bool) bool {
+		return func(cond ssa.Value, truth bool) bool {
+			ex, ok := cond.(*ssa.Extract)
+			return ok && ex.Index == 0 && ex.Tuple == ssa.Value(ld.next) && !truth
+		}
+	}
+	n := 0
+	for _, blk := range h.Blocks {
+		ret, ok := blk.Instrs[len(blk.Instrs)-1].(*ssa.Return)
+		if !ok {
+			continue
+		}
+		cb, isC := constBool(ret.Results[0])
+		if !isC {
+			return 0, false
+		}
+		if cb {
+			continue
+		}
+		n++
+		if !mustPassEdge(h, blk, exhausted(a.ld)) || !mustPassEdge(h, blk, exhausted(b.ld)) {
+			return 0, false
+		}
+	}
+	return a.name, n > 0
 }
